@@ -22,6 +22,7 @@
 #include <linux/futex.h>
 #include <time.h>
 #include "vs_api.h"
+#include <dlfcn.h>
 
 enum { VSK_LOAD = 0, VSK_STORE = 1, VSK_RMW = 2, VSK_FENCE = 3, VSK_YIELD = 4, VSK_SPAWN = 5,
        VSK_FWAIT = 6, VSK_FWAKE = 7, VSK_WORK = 8, VSK_PAUSE = 9, VSK_BLOCK = 10 };
@@ -62,7 +63,7 @@ static StallSpec stalls[4]; static int nstall = 0;
 static long step_budget = 2000000; static long fix_threshold = 20000;
 static std::vector<int> tape; static size_t tape_pos = 0; static bool record = false;
 static std::vector<int> rec;
-static long pct_change[8]; static int pct_low = 0;
+static long pct_change[8]; static int pct_low = 0; static long consec = 0;
 
 // statistics
 static uint64_t steps = 0, switches = 0, lclock = 0, write_epoch = 1;
@@ -73,6 +74,15 @@ static int solo = -1; static long solo_limit = 0, solo_steps = 0; static bool so
 static void (*h_deadlock)(const char*) = nullptr; static void (*h_fixpoint)(const char*) = nullptr;
 static uint64_t vtime = 1000000; static unsigned long long vclock = 1000000000ull;
 
+struct TraceE { int t, kind; uintptr_t pc; const void* a; uint64_t we; };
+static TraceE* trace_ring = nullptr; static uint64_t trace_n = 0; static const unsigned TRACE_SZ = 400;
+static void trace_dump() {
+    if (!trace_ring) return;
+    uint64_t from = trace_n > TRACE_SZ ? trace_n - TRACE_SZ : 0;
+    for (uint64_t i = from; i < trace_n; i++) { TraceE& e = trace_ring[i % TRACE_SZ]; Dl_info di; const char* sn = "?"; unsigned long off = 0;
+        if (e.pc && dladdr((void*)e.pc, &di) && di.dli_sname) { sn = di.dli_sname; off = e.pc - (uintptr_t)di.dli_saddr; }
+        fprintf(stderr, "TR %lu t%d k%d a=%p we=%lu %s+%lu\n", (unsigned long)i, e.t, e.kind, e.a, (unsigned long)e.we, sn, off); }
+}
 static uint64_t rnd() { rng ^= rng << 13; rng ^= rng >> 7; rng ^= rng << 17; return rng; }
 static uint64_t rnd2() { rng2 ^= rng2 << 13; rng2 ^= rng2 >> 7; rng2 ^= rng2 << 17; return rng2; }
 
@@ -109,7 +119,7 @@ static std::string state_dump() {
 }
 static void sanitize(char* p) { for (; *p; p++) if (*p == '\n' || *p == '\r') *p = ' '; }
 [[noreturn]] static void finish(const char* verdict, const char* kind, const char* detail) {
-    active = false;
+    active = false; trace_dump();
     char b[2048]; snprintf(b, sizeof b, "R %s %s %s", verdict, kind, detail); sanitize(b); out(b); out("\n");
     emit_stats();
     _exit(0);
@@ -202,6 +212,8 @@ static int pick(int kind) {
     for (int i = 0; i < nth; i++) if (ths[i]->stall > 0) ths[i]->stall--;
     if (n == 0) { for (int i = 0; i < nth; i++) if (ths[i]->st == RUN) { ths[i]->stall = 0; el[n++] = i; } }
     bool yielding = (kind == VSK_YIELD || kind == VSK_PAUSE);
+    // fairness: a thread that ran 1000 consecutive points while others were runnable (an RMW-only retry loop) gives way
+    if (me && n > 1 && ++consec > 1000) { yielding = true; consec = 0; }
     bool me_ok = me && me->st == RUN && me->stall <= 0;
     int chosen = -1;
     if (strat == S_TAPE || tape_pos < tape.size()) {
@@ -231,7 +243,7 @@ static int pick(int kind) {
 }
 static void switch_to(int n) {
     if (me && n == me->id) return;
-    switches++;
+    switches++; consec = 0;
     Th* self = me;
     fwake(&ths[n]->go);
     fwait(&self->go);
@@ -247,6 +259,7 @@ static void point_pc(const void* addr, int kind, uintptr_t pc) {
     if (kind == VSK_PAUSE) { if (me->pause_run > 0 && me->pause_run < 64) { me->pause_run++; return; } me->pause_run = 1; }
     else me->pause_run = 0;
     steps++;
+    if (trace_ring) trace_ring[trace_n++ % TRACE_SZ] = { me->id, kind, pc, addr, write_epoch };
     if (steps > (uint64_t)step_budget) { active = false; finish("INCONCLUSIVE", "STEP-BUDGET", state_dump().c_str()); }
     // event classes (directed stalls)
     if (me->wake_pts > 0) { me->wake_pts--; event(E_WAKE); }
@@ -445,6 +458,7 @@ extern "C" void vs_begin(const char* line) {
     tso_window = (int)kv_long(line, "w", 4); tso_flushp = (unsigned)kv_long(line, "fp", 16);
     step_budget = kv_long(line, "budget", 2000000); fix_threshold = kv_long(line, "fix", 20000);
     record = kv_long(line, "record", 0) != 0;
+    if (kv_long(line, "trace", 0)) trace_ring = new TraceE[TRACE_SZ];
     std::string sl = kv_str(line, "stall", "");   // cls:idx:dur[,cls:idx:dur...]
     nstall = 0;
     for (size_t p = 0; p < sl.size() && nstall < 4;) {
